@@ -761,12 +761,11 @@ Qed.
 Lemma pointer_eq_fixed : snd (run (mkc PDefault 5) init [w_self]) = [OPeers []].
 Proof. vm_compute. reflexivity. Qed.
 
-(* whenever the pinned code's store answer contains the announcer, the announcer is handed out *)
-Lemma pointer_eq_general pol src l : In src l -> In src (sort_peers_ptr pol src l).
+(* the pinned code never excludes anything: whatever the stores supplied is handed out, so the
+   announcer is listed whenever the peer store's answer contains its entry *)
+Lemma pointer_eq_general pol src l x : In x l -> In x (sort_peers_ptr pol src l).
 Proof. intros H. unfold sort_peers_ptr. apply (Permutation_in _ (Permutation_sym (isort_perm (prio pol) l))). exact H. Qed.
 
-(* outside the environment assumption (an origin that also announced as an agent) a peer id is
-   listed twice *)
 Lemma nodup_overlap_refuted :
   exists c ops, legal c ops = true /\ origins_ok_from init ops = false
                 /\ Exists (fun o => exists l, o = OPeers l /\ ~ NoDup (map pid l)) (snd (run c init ops)).
